@@ -413,6 +413,65 @@ func ruleTabKU(c *Ctx, r *Rep) {
 			}
 		}
 	}
+	// the same table written as a function from the label to the flag: constants returned under string case labels
+	if kuT := c.NamedType("generator/cert", "KeyUsage"); kuT != nil {
+		for _, fn := range c.Funcs {
+			if len(byFn[fn]) > 0 {
+				continue
+			}
+			res := fn.Signature.Results()
+			if res.Len() == 0 || !types.Identical(res.At(0).Type(), kuT) {
+				continue
+			}
+			for _, ret := range returnsOf(fn) {
+				for _, pe := range phiEdges(retResults(ret)[0], ret.Block()) {
+					k, ok := pe.Val.(*ssa.Const)
+					if !ok || k.Value == nil {
+						continue
+					}
+					from := pe.From
+					if from == nil {
+						from = ret.Block()
+					}
+					if label, _, ok := stringCaseLabel(from); ok {
+						byFn[fn] = append(byFn[fn], row{label, k.Int64(), ret.Pos()})
+					}
+				}
+			}
+		}
+		// or as a package-level map from the label to the flag
+		if len(byFn) == 0 {
+			ev := c.evaluator()
+			for _, g := range c.globalsOfType(func(t types.Type) bool {
+				return isMapOf(t, isString, func(e types.Type) bool { return types.Identical(e, kuT) })
+			}) {
+				ks, vs, why := tableOfGlobal(c, ev, g)
+				if why != "" {
+					continue
+				}
+				var rows []row
+				for i := range ks {
+					l, ok1 := ks[i].Str()
+					m, ok2 := vs[i].Int()
+					if ok1 && ok2 {
+						rows = append(rows, row{l, m, g.Pos()})
+					}
+				}
+				if len(rows) >= 5 {
+					// attribute the table to the function that looks it up
+					for _, fn := range c.Funcs {
+						for _, b := range fn.Blocks {
+							for _, ins := range b.Instrs {
+								if lk, ok := ins.(*ssa.Lookup); ok && loadedGlobal(lk.X) == g {
+									byFn[fn] = rows
+								}
+							}
+						}
+					}
+				}
+			}
+		}
+	}
 	var fn *ssa.Function
 	for f, rows := range byFn {
 		if len(rows) >= 5 {
@@ -717,6 +776,14 @@ func ruleTabQual(c *Ctx, r *Rep) {
 				if !ok {
 					continue
 				}
+				// a nested literal stores through a chain of field addresses: take the link that leaves the qualifier
+				for !strings.HasSuffix(ownerName(c, fa.X.Type()), "PolicyQualifier") {
+					up, ok := fa.X.(*ssa.FieldAddr)
+					if !ok {
+						break
+					}
+					fa = up
+				}
 				owner := ownerName(c, fa.X.Type())
 				if !strings.HasSuffix(owner, "PolicyQualifier") {
 					continue
@@ -1018,8 +1085,25 @@ func ruleTabHashLine(c *Ctx, r *Rep) {
 				if rPos != token.NoPos {
 					continue
 				}
-				// reader, form 2: in a function that also calls bytes.Index with a []byte(const) needle
-				for _, ci2 := range callsIn(fn) {
+				// reader, form 2: in a function that also calls bytes.Index with a []byte(const) needle - or whose argument
+				// is the answer of a same-package helper that does
+				scanFns := []*ssa.Function{fn}
+				if ex, ok := ci.Common().Args[1].(*ssa.Extract); ok {
+					if hc, ok := ex.Tuple.(*ssa.Call); ok {
+						if g := hc.Call.StaticCallee(); g != nil && c.InModule(g) && g.Blocks != nil && g.Pkg == fn.Pkg {
+							scanFns = append(scanFns, g)
+						}
+					}
+				} else if hc, ok := ci.Common().Args[1].(*ssa.Call); ok {
+					if g := hc.Call.StaticCallee(); g != nil && c.InModule(g) && g.Blocks != nil && g.Pkg == fn.Pkg {
+						scanFns = append(scanFns, g)
+					}
+				}
+				var scanCalls []ssa.CallInstruction
+				for _, sf := range scanFns {
+					scanCalls = append(scanCalls, callsIn(sf)...)
+				}
+				for _, ci2 := range scanCalls {
 					switch calleeFullName(ci2) {
 					case "bytes.Index":
 						if cv, ok := ci2.Common().Args[1].(*ssa.Convert); ok {
